@@ -260,12 +260,15 @@ def workload(pid, tier, rng):
                                  cbs=("buf", "null", "mix"), orders=1, probe="end")
         execs += rs_exhaustive(rs_small[:30 if q else None], rng, apis=("recv", "setavail"), cbs=("buf", "null", "mix"),
                                orders=1, probe="end")
-        execs += random_ldpc(rng, 150 if q else 2000, 40 if q else 64, cbs=("buf", "null", "mix"))
-        execs += random_rs(rng, 150 if q else 2000, 40 if q else 255, cbs=("buf", "null", "mix"))
+        execs += random_ldpc(rng, 600 if q else 6000, 40 if q else 64, cbs=("buf", "null", "mix"))
+        execs += dense_ldpc(rng, 300 if q else 3000, cbs=("buf", "null", "mix"), finish_choices=(True, False), probe="end")
+        execs += random_rs(rng, 600 if q else 6000, 40 if q else 255, cbs=("buf", "null", "mix"))
     elif pid == "C08":
-        execs += release_everywhere(ld_small[:3 if q else 8] + [rs_small[i] for i in range(0, len(rs_small), 7 if q else 2)], rng)
-        execs += random_ldpc(rng, 100 if q else 1500, 40 if q else 64, cbs=cbs_all)
-        execs += random_rs(rng, 100 if q else 1500, 40 if q else 255, cbs=cbs_all)
+        execs += release_everywhere(ld_small[:8 if q else 12] + [rs_small[i] for i in range(0, len(rs_small), 3 if q else 1)], rng)
+        execs += random_ldpc(rng, 600 if q else 6000, 40 if q else 64, cbs=cbs_all)
+        execs += dense_ldpc(rng, 300 if q else 3000, cbs=cbs_all, finish_choices=(True, False), probe="end")
+        execs += random_rs(rng, 600 if q else 6000, 40 if q else 255, cbs=cbs_all)
+        execs += big_ldpc(rng, [400] if q else [400, 1200, 3000])
     elif pid == "C07":
         # lengths, alignments, limits
         for length in ([1, 2, 3, 4, 5, 7, 8, 9, 12, 15, 16, 17, 20, 24, 28, 31, 32, 33, 44] + ([] if q else [47, 63, 64, 65, 100, 1024, 1316])):
@@ -281,9 +284,11 @@ def workload(pid, tier, rng):
             execs.append(gen.decode_exec(p, rng.sample(range(p.n), k), finish=True, probe="end"))
             execs.append(gen.decode_exec(p, rng.sample(range(p.n), k), api="setavail", finish=True, probe="end", cb="buf"))
             execs.append(gen.encode_exec(p))
-        execs += release_everywhere(ld_small[:2] + rs_small[:4], rng, cbs=(None, "mix"))
-        execs += random_ldpc(rng, 150 if q else 2500, 40 if q else 100, cbs=cbs_all)
-        execs += random_rs(rng, 150 if q else 2500, 60 if q else 255, cbs=cbs_all)
+        execs += release_everywhere(ld_small[:4] + rs_small[:8], rng, cbs=(None, "mix"))
+        execs += random_ldpc(rng, 800 if q else 8000, 40 if q else 100, cbs=cbs_all)
+        execs += dense_ldpc(rng, 300 if q else 3000, cbs=cbs_all, finish_choices=(True, False), probe="end")
+        execs += random_rs(rng, 800 if q else 8000, 60 if q else 255, cbs=cbs_all)
+        execs += big_ldpc(rng, [500] if q else [500, 1500, 4000])
         if not q:
             p = P(3, 2000, 1000, N1=3, seed=9, length=8, payload="rnd")
             execs.append(gen.decode_exec(p, rng.sample(range(p.n), 2300), finish=True, probe="end"))
